@@ -62,4 +62,27 @@ CLAIMS.update({
     },
 })
 
+CLAIMS.update({
+    "C12": {
+        "technique": "static analysis of error discipline: structure of the try/except in both process run() methods and in main(), abstract execution of every broad handler body (re-raise / exit non-zero / forward sentinel on every path), first-matching-handler resolution per input-error class, protocol-frame rules shared with C06",
+        "text": "Decides that all work in the worker and reader processes lies inside an 'except Exception' that forwards (-2, (exception, traceback)) on every outgoing connection, that the end token is only sent after a complete read, that sentinels are tested before payload is read and that the main process terminates the children before re-raising, that the first handler in main() catching each input-error class logs the error and exits non-zero (2 for command-line errors), that no broad handler in the package swallows an exception, and that two inputs go through one paired reader. NOT decided: termination under every schedule and fault position (liveness, needs a model checker), completeness of the records written before the error, the library's behaviour on truncated streams.",
+        "design_ref": "DESIGN.md section 5, C12",
+    },
+    "C15": {
+        "technique": "static analysis: path-exhaustive abstract execution of the three _open_writers and __call__ methods (A1), decision table of the demultiplex-mode detection (A3), builder interpreter for the placement and wiring of the demultiplexer step (A2)",
+        "text": "Decides that a writer is opened unconditionally for every adapter name / name combination with the right template per mate, the untrimmed target rule, that reads are routed by the name of the LAST match (of R1; of R1 and R2 in that order), the mode-detection table, the accounting of the three demultiplexers, and that a demultiplexer is the only consuming step of its configurations and is wired to its own options. Not decided: multiset equality with the un-demultiplexed output.",
+        "design_ref": "DESIGN.md section 5, C15",
+    },
+    "C17": {
+        "technique": "static analysis: path-exhaustive abstract execution of the info writer and of both get_info_records (A1), slice algebra of the printed fields (A4), builder interpreter for the position of the writer and for the set of pre-adapter modifiers that remove a prefix (A2)",
+        "text": "Decides that the info writer returns every read and prints exactly one -1 row without match / one row per info record otherwise, that it precedes every consuming step, that the three sequence and quality fields are [0,a) [a,b) [b,end) of the record passed in with a, b the printed coordinates, the ;1/;2 rows of linked matches and the once-per-match advance, and that no modifier running before adapter trimming removes a prefix without the writer accounting for it (two known findings: -u N>0 and a 5' quality cutoff). Not decided: agreement with the aligner's error count.",
+        "design_ref": "DESIGN.md section 5, C17",
+    },
+    "C18": {
+        "technique": "static analysis: option table read from argparse with constant folding of the type lambdas (A5), decision tables (A3) of the class table, restriction parser, validation rules and ellipsis normalisation, dataflow of parameter-dict copies for precedence (A8), who-raises-what sweep against the handler tuple",
+        "text": "Decides the option->type table, the (type, restriction, rightmost)->class table and the restriction parser, that exactly the documented invalid combinations are rejected (e.g. o= only for anchored adapters), the abbreviation graph and the fate of every canonical parameter, that each precedence level is a copy of the lower level updated by the higher one, the anchoring characters of the file: forms, the divisor of absolute error numbers, and that every exception class raised on the specification path is converted to a command-line error. Not decided: the grammar x options cross product as strings; brace expansion.",
+        "design_ref": "DESIGN.md section 5, C18",
+    },
+})
+
 PENDING_REASON = "no static rule for this property is registered in this revision of /verif (see DESIGN.md section 7 for what is out of reach)"
